@@ -11,6 +11,7 @@ identically.  Static rules (DESIGN.md §C14):
  dangling-ser    to_dict/as_dict calling a serialiser its receiver's class does not define
 """
 import ast
+import re
 import os
 import sys
 
@@ -301,6 +302,19 @@ def registry_classes(mod):
             table[k.value] = v.id
         return list(table.values()), table
     v = mod.assigns.get("ALL_CLASSES")
+    # third form: ALL_CLASSES = Base.__subclasses__() [wrapped in list()/tuple()] -- at that statement the
+    # value is the list of *direct* subclasses of Base created so far, i.e. the module-level classes above the
+    # statement whose bases name Base (a subclass of a subclass is NOT in it)
+    w = v
+    if isinstance(w, ast.Call) and isinstance(w.func, ast.Name) and w.func.id in ("list", "tuple") and len(w.args) == 1:
+        w = w.args[0]
+    if (isinstance(w, ast.Call) and not w.args and isinstance(w.func, ast.Attribute)
+            and w.func.attr == "__subclasses__" and isinstance(w.func.value, ast.Name)):
+        base = w.func.value.id
+        at = max((st.lineno for st in mod.ast.body if isinstance(st, ast.Assign)
+                  and any(isinstance(t, ast.Name) and t.id == "ALL_CLASSES" for t in st.targets)), default=0)
+        return [st.name for st in mod.ast.body if isinstance(st, ast.ClassDef) and st.lineno < at
+                and any(isinstance(b, ast.Name) and b.id == base for b in st.bases)], None
     if not isinstance(v, (ast.List, ast.Tuple)):
         raise core.AnalysisError("neither a literal ALL_CLASSES list nor a literal ALL_CLASS_DICT in %s" % mod.rel)
     names = []
@@ -352,9 +366,11 @@ def rule_registry(chk, prog):
     for m, c in prog.subclasses("FeatureNormalizer"):
         if c.name == "FeatureNormalizer" or m.rel != TD:
             continue
-        if "as_dict" in pf.methods(c) and c.name not in names:
+        own_code = any(isinstance(st, ast.Assign) and any(isinstance(t, ast.Name) and t.id == "code" for t in st.targets)
+                       for st in c.body)
+        if ("as_dict" in pf.methods(c) or own_code) and c.name not in names:
             chk.violation("code-table", TD, c.name, "class %s" % c.name, c.lineno,
-                          "map class with as_dict is not in ALL_CLASSES: its dict cannot be loaded")
+                          "map class with its own code / as_dict is not in ALL_CLASSES: its dict cannot be loaded")
         else:
             chk.ok("code-table", "%s registered" % c.name, nontrivial=False)
 
@@ -798,6 +814,11 @@ def mutants(tree):
                'return cls(d["j"], d["i"], d["k"])', expect="attr-loop"),
         Mutant("eval reads unserialised attr", TD, "y[:] = x[self.i]\n", "y[:] = x[self.i] * self.extra_scale\n",
                expect="state-coverage"),
+        Mutant("registry from direct __subclasses__ + map re-based on a sibling map", TD,
+               fn=lambda t: (re.sub(r"ALL_CLASSES = \[[^\]]*\]", "ALL_CLASSES = FeatureNormalizer.__subclasses__()", t, count=1)
+                             .replace("class SLTWMap(FeatureNormalizer):", "class SLTWMap(SLTMap):", 1)
+                             if "class SLTWMap(FeatureNormalizer):" in t and re.search(r"ALL_CLASSES = \[", t) else None),
+               expect="code-table"),
         Mutant("SafeLoader", TD, "Loader=yaml.Loader", "Loader=yaml.SafeLoader", expect="loader"),
         Mutant("remove else raise of registry dispatch", TD,
                '        else:\n            raise ValueError("Unrecognized code: {}".format(d["code"]))', "", expect="reject"),
